@@ -33,7 +33,7 @@ CHECKS = {
          "Trusted: the harness's RFC 1035 decoder/encoder. Inputs whose RDLENGTH disagrees with name-bearing rdata are skipped (counted).", "3/C14"),
  "C04": ("CODEC", "property testing of size-limited serialisation with an independent decoder as validity predicate; limits placed at every record boundary +-2", "exploration",
          "For generated messages and limits: output <= limit, identical to the full encoding when that fits, otherwise TC set and a proper whole-record prefix that an independent decoder accepts with matching counts.",
-         "Function tier decides the serialiser; the per-transport choice (UDP vs TCP) is glue inside the service loops and is decided by the wire tier when enabled.", "3/C04"),
+         "Function tier decides the serialiser; the per-transport choice (UDP vs TCP) is glue inside the service loops and is decided by the wire tier (same command; needs the private network namespace).", "3/C04"),
  "C05": ("CODEC+FUZZ", "complete enumeration of a structure-aware boundary/truncation family + generated mutations + corpus through every decoder and the handler steps that follow it; crash/overflow/hang oracle with write-ahead replay", "exploration",
          "No input of the enumerated single-position family over the seed packets, of the nested-length families, of the committed corpus or of the generated multi-edit mutations made any decoder or subsequent handler step panic, overflow or exceed 30 s CPU (build has overflow checks and debug assertions on).",
          "Handler steps replicated with public API calls in the order the service uses them; private glue (to_array, service loops) is reached only by the wire tier. Frames below 14 octets are not deliverable to LLDP.", "3/C05"),
@@ -58,6 +58,15 @@ CHECKS = {
  "C11": ("CONF", "model-based property testing: generated policy trees and requests through the real loader and handle_pkt; independent model of the manual's option semantics", "exploration",
          "For every generated policy tree, top-level defaults and request, the reply's options equal the model (sibling order, condition-less policies, outer-then-inner override, null unsets, parameter-list gating, defaults with $self4, MTU/router, netmask/broadcast) as a map code -> bytes.",
          "Trusted: the harness's model of erbium.conf(5) and RFC 2132 encodings for the 20 options generated. Unconstrained: netmask/broadcast with two different matching subnets; empty lists; relayed requests and match-interface are not generated.", "3/C11"),
+ "C03": ("WIRE-DNS", "differential property testing on the wire: generated queries and upstream replies through the real erbium-dns with a scripted upstream; independent RFC 1035 decoder on both sides", "exploration",
+         "For every generated (query, upstream reply) pair the response that reaches the client carries the client's id and question, QR, the upstream's rcode and the upstream's three sections record by record (TTL equal, or aged within bounds when served from cache).",
+         "Trusted: harness decoder/encoder, scripted upstream. TCP-path cases are run one at a time (concurrency on the upstream TCP connection belongs to C07); a relayed REFUSED may be silenced by the UDP rate limiter (counted). Needs the private network namespace.", "3/C03"),
+ "C07": ("WIRE-DNS", "fault enumeration + generated concurrent schedules on the wire: enumerated upstream loss patterns, generated delay/duplication/id-mismatch/truncation scripts, all listener families", "fault_enumeration",
+         "Each query of every generated concurrent set gets exactly one response, its own, from the address it was sent to; SERVFAIL iff the upstream never answered; the loss patterns over the upstream transmissions are enumerated (quick: <= 2 losses and all lost; thorough: all 32).",
+         "The harness owns the external schedule (arrival order, upstream delays, losses) but not tokio's task interleaving inside the server. Bounded time = within 60 s, derived from the server's own back-off.", "3/C07"),
+ "C15": ("WIRE-DNS", "model-based + metamorphic property testing on the wire: generated route tables with one scripted upstream per route, reference longest-suffix model, permutation and letter-case relations", "exploration",
+         "For every generated route table (as written and permuted) and name: forge => NXDOMAIN and no upstream asked; forward+RD => own answer from exactly the longest-suffix route's upstream; forward without RD => REFUSED and nobody asked; no route => SERVFAIL; identical outcomes under permutation.",
+         "Ambiguous tables (same suffix in two routes) are not generated. Needs the private network namespace.", "3/C15"),
 }
 
 NOT_YET = {
@@ -97,6 +106,7 @@ def main():
         "engines": [
             {"name": "CODEC", "path": "harness/src/props_codec.rs", "serves_properties": ["C04", "C05", "C06", "C12", "C14", "C16"], "kind_free_text": "independent RFC codecs + proptest strategies for messages, frames, byte mutations; enumerated mutation families"},
             {"name": "CONF", "path": "harness/src/conf.rs", "serves_properties": ["C02", "C08", "C11", "C17", "C19"], "kind_free_text": "YAML documents (reference docs, substitution family, generated ASTs) through the real loader; serve-smoke"},
+            {"name": "WIRE-DNS", "path": "harness/src/wire_dns.rs", "serves_properties": ["C03", "C04", "C07", "C15"], "kind_free_text": "real erbium-dns binary in a private network namespace, scripted upstream servers on 127.0.1.N:53, UDP/TCP clients; cases generated by proptest, confirmed twice, shrunk with <= 40 re-executions"},
             {"name": "HIST", "path": "harness/src/hist.rs", "serves_properties": ["C01", "C09", "C10", "C13", "C18", "C20"], "kind_free_text": "model-based DHCP history interpreter over the real handle_pkt + Pool (proptest)"},
         ],
         "checks": checks,
